@@ -42,6 +42,13 @@ type result struct {
 
 type tcase struct {
 	Kind, Text string
+	From       []string   // extras: graph names ...
+	Graphs     [][]string // ... and their triples (one text line each)
+}
+
+type runSpec struct {
+	c     tcase
+	store string // empty | populated | own
 }
 
 var populatedTriples = []string{
@@ -59,12 +66,30 @@ var populatedTriples = []string{
 	`/u<joe>	"age"@[]	"31"^^type:int64`,
 }
 
-func newStore(kind string) storage.Store {
+func newStore(kind string, c *tcase) storage.Store {
 	s := memory.NewStore()
 	if kind == "empty" {
 		return s
 	}
 	ctx := context.Background()
+	if kind == "own" {
+		for i, g := range c.From {
+			gr, err := s.NewGraph(ctx, g)
+			if err != nil {
+				continue
+			}
+			var ts []*triple.Triple
+			if i < len(c.Graphs) {
+				for _, l := range c.Graphs[i] {
+					if t, err := triple.Parse(l, literal.DefaultBuilder()); err == nil {
+						ts = append(ts, t)
+					}
+				}
+			}
+			gr.AddTriples(ctx, ts)
+		}
+		return s
+	}
 	var ts []*triple.Triple
 	for _, l := range populatedTriples {
 		t, err := triple.Parse(l, literal.DefaultBuilder())
@@ -82,7 +107,8 @@ func newStore(kind string) storage.Store {
 }
 
 // runOne executes one text; panics of the calling goroutine are recovered, hangs are detected by a watchdog.
-func runOne(storeKind, text string) (outcome, detail string, rows int) {
+func runOne(storeKind string, c *tcase) (outcome, detail string, rows int) {
+	text := c.Text
 	before := runtime.NumGoroutine()
 	type out struct {
 		o, d string
@@ -98,7 +124,7 @@ func runOne(storeKind, text string) (outcome, detail string, rows int) {
 			}
 		}()
 		ctx := context.Background()
-		st := newStore(storeKind)
+		st := newStore(storeKind, c)
 		p, err := grammar.NewParser(grammar.SemanticBQL())
 		if err != nil {
 			ch <- out{"plan_error", "NewParser", 0}
@@ -169,6 +195,39 @@ func leakSite(stack string) string {
 	return "?"
 }
 
+// lexSafe lexes with a deadline: a lexer that never closes its channel must not hang the harness itself.
+func lexSafe(text string) ([]lexer.Token, bool) {
+	done := make(chan []lexer.Token, 1)
+	go func() {
+		var out []lexer.Token
+		for t := range lexer.New(text, 0) {
+			out = append(out, t)
+			if len(out) > 100000 {
+				break
+			}
+		}
+		done <- out
+	}()
+	select {
+	case o := <-done:
+		return o, true
+	case <-time.After(3 * time.Second):
+		return nil, false
+	}
+}
+
+func lexKindsSafe(text string) []int {
+	ts, ok := lexSafe(text)
+	if !ok {
+		return nil
+	}
+	var out []int
+	for _, t := range ts {
+		out = append(out, int(t.Type))
+	}
+	return out
+}
+
 // ---------------------------------------------------------------- case generation
 var corpus = []string{
 	`create graph ?n;`, `drop graph ?a;`, `drop graph ?missing;`, `show graphs;`,
@@ -216,7 +275,7 @@ func gen(seed int64, n, exhaust int) []tcase {
 	ws := gram.Witnesses(g, gram.Lexable)
 	var cases []tcase
 	for _, c := range corpus {
-		cases = append(cases, tcase{"corpus", c})
+		cases = append(cases, tcase{Kind: "corpus", Text: c})
 	}
 	var sents []string
 	for _, w := range ws {
@@ -231,7 +290,7 @@ func gen(seed int64, n, exhaust int) []tcase {
 		}
 	}
 	for _, s := range sents {
-		cases = append(cases, tcase{"witness", s})
+		cases = append(cases, tcase{Kind: "witness", Text: s})
 	}
 	pool := append(append([]string{}, corpus...), sents...)
 	ntok := len(gram.TokenNames())
@@ -240,7 +299,8 @@ func gen(seed int64, n, exhaust int) []tcase {
 		switch rng.Intn(5) {
 		case 0: // token-level mutation
 			var toks []string
-			for t := range lexer.New(base, 0) {
+			lx, _ := lexSafe(base)
+			for _, t := range lx {
 				if t.Type != lexer.ItemEOF && t.Type != lexer.ItemError {
 					toks = append(toks, t.Text)
 				}
@@ -259,7 +319,7 @@ func gen(seed int64, n, exhaust int) []tcase {
 			case 3:
 				toks = toks[:j]
 			}
-			cases = append(cases, tcase{"mut-token", strings.Join(toks, " ")})
+			cases = append(cases, tcase{Kind: "mut-token", Text: strings.Join(toks, " ")})
 		case 1: // byte-level mutation
 			b := []byte(base)
 			if len(b) == 0 {
@@ -278,7 +338,7 @@ func gen(seed int64, n, exhaust int) []tcase {
 			case 3:
 				b = b[:j]
 			}
-			cases = append(cases, tcase{"mut-byte", string(b)})
+			cases = append(cases, tcase{Kind: "mut-byte", Text: string(b)})
 		case 2: // swap a literal / value for an odd one
 			odd := []string{`""^^type:blob`, `"1"^^type:İnt64`, `"-1"^^type:int64`, `"9223372036854775807"^^type:int64`, `"NaN"^^type:float64`,
 				`"x"^^type:text`, `"[1 2 3]"^^type:blob`, `"true"^^type:bool`, `"p"@[?a,?b]`, `"p"@[,]`, `"p"@[2016-01-01T00:00:00Z,]`, `/u<>`, `_:v`}
@@ -288,21 +348,21 @@ func gen(seed int64, n, exhaust int) []tcase {
 					s = strings.Replace(s, tgt, odd[rng.Intn(len(odd))], 1)
 				}
 			}
-			cases = append(cases, tcase{"mut-value", s})
+			cases = append(cases, tcase{Kind: "mut-value", Text: s})
 		case 3: // random bytes
 			k := rng.Intn(12)
 			b := make([]byte, k)
 			for j := range b {
 				b[j] = byte(rng.Intn(256))
 			}
-			cases = append(cases, tcase{"random-bytes", string(b)})
+			cases = append(cases, tcase{Kind: "random-bytes", Text: string(b)})
 		case 4: // random lexeme sequence
 			k := rng.Intn(8)
 			var parts []string
 			for j := 0; j < k; j++ {
 				parts = append(parts, gram.Lexeme(2+rng.Intn(ntok-2)))
 			}
-			cases = append(cases, tcase{"random-tokens", strings.Join(parts, " ")})
+			cases = append(cases, tcase{Kind: "random-tokens", Text: strings.Join(parts, " ")})
 		}
 	}
 	// exhaustively all token-kind sequences up to length `exhaust` over all kinds
@@ -310,7 +370,7 @@ func gen(seed int64, n, exhaust int) []tcase {
 		var rec func(prefix []int, d int)
 		rec = func(prefix []int, d int) {
 			if len(prefix) > 0 {
-				cases = append(cases, tcase{"exhaustive", gram.Render(prefix)})
+				cases = append(cases, tcase{Kind: "exhaustive", Text: gram.Render(prefix)})
 			}
 			if d == 0 {
 				return
@@ -332,20 +392,47 @@ func main() {
 	seed := flag.Int64("seed", 1, "PRNG seed")
 	n := flag.Int("n", 1000, "number of mutated/random cases")
 	exhaust := flag.Int("exhaust", 2, "exhaustive token-kind sequences up to this length")
+	extra := flag.String("extra", "", "JSON lines file of extra cases {query, from, graph_texts} run against their own store")
 	flag.Parse()
 	cases := gen(*seed, *n, *exhaust)
-	stores := []string{"empty", "populated"}
-	total := len(cases) * len(stores)
+	var runs []runSpec
+	for _, c := range cases {
+		runs = append(runs, runSpec{c, "empty"}, runSpec{c, "populated"})
+	}
+	if *extra != "" {
+		f, err := os.Open(*extra)
+		if err != nil {
+			fmt.Fprintln(os.Stderr, err)
+			os.Exit(2)
+		}
+		sc := bufio.NewScanner(f)
+		sc.Buffer(make([]byte, 1<<20), 1<<26)
+		for sc.Scan() {
+			var x struct {
+				Query  string     `json:"query"`
+				From   []string   `json:"from"`
+				Graphs [][]string `json:"graph_texts"`
+			}
+			if json.Unmarshal(sc.Bytes(), &x) == nil && x.Query != "" {
+				runs = append(runs, runSpec{tcase{"generated-query", x.Query, x.From, x.Graphs}, "own"})
+			}
+		}
+		f.Close()
+	}
+	total := len(runs)
 	if *child {
 		w := bufio.NewWriter(os.Stdout)
 		enc := json.NewEncoder(w)
 		for i := *from; i < total; i += *stride {
-			c, sk := cases[i/len(stores)], stores[i%len(stores)]
+			c, sk := runs[i].c, runs[i].store
 			fmt.Fprintf(w, "START %d\n", i)
 			w.Flush()
-			o, d, rows := runOne(sk, c.Text)
-			enc.Encode(result{i, c.Kind, sk, c.Text, o, d, rows, gram.LexKinds(c.Text)})
+			o, d, rows := runOne(sk, &c)
+			enc.Encode(result{i, c.Kind, sk, c.Text, o, d, rows, lexKindsSafe(c.Text)})
 			w.Flush()
+			if o == "hang" {
+				os.Exit(3) // a goroutine is stuck (possibly spinning): start the next case in a fresh process
+			}
 		}
 		return
 	}
@@ -368,7 +455,7 @@ func main() {
 			defer wg.Done()
 			next := w
 			for next < total {
-				cmd := exec.Command(os.Args[0], "-child", "-from", fmt.Sprint(next), "-stride", fmt.Sprint(W), "-seed", fmt.Sprint(*seed), "-n", fmt.Sprint(*n), "-exhaust", fmt.Sprint(*exhaust))
+				cmd := exec.Command(os.Args[0], "-child", "-from", fmt.Sprint(next), "-stride", fmt.Sprint(W), "-seed", fmt.Sprint(*seed), "-n", fmt.Sprint(*n), "-exhaust", fmt.Sprint(*exhaust), "-extra", *extra)
 				out, _ := cmd.StdoutPipe()
 				var errb strings.Builder
 				cmd.Stderr = &errb
@@ -390,11 +477,11 @@ func main() {
 				}
 				cmd.Wait()
 				if started > done { // the child died while running case `started`
-					c, sk := cases[started/len(stores)], stores[started%len(stores)]
+					c, sk := runs[started].c, runs[started].store
 					msg := errb.String()
 					site := firstFrames(msg)
 					first := strings.SplitN(msg, "\n", 2)[0]
-					b, _ := json.Marshal(result{started, c.Kind, sk, c.Text, "killed", first + " @ " + site, 0, gram.LexKinds(c.Text)})
+					b, _ := json.Marshal(result{started, c.Kind, sk, c.Text, "killed", first + " @ " + site, 0, lexKindsSafe(c.Text)})
 					emit(string(b))
 					next = started + W
 				} else if done < 0 {
